@@ -169,7 +169,8 @@ def run_case(case):
             if s == 0 and ren >= 0 and not case.get("startleg") and abs(pop[ri, b] / shares[b] - 1) > 1e-4:
                 return fail(nontriv, cls, "record %d (step %d): population of bunch %d is %.6g, its share of the filling is %.6g" % (ri, s, b, pop[ri, b], shares[b]), "rows:population", met)
             integ = (prof[ri, b] * w).sum()
-            e = abs(integ - pop[ri, b]) / max(shares[b], abs(pop[ri, b]))
+            # (relative to the sum of the magnitudes: a run that has blown up holds alternating values whose sum is small)
+            e = abs(integ - pop[ri, b]) / max(shares[b], abs(pop[ri, b]), float((np.abs(prof[ri, b]) * w).sum()))
             met["pop_err"] = max(met.get("pop_err", 0), e)
             if e > 5e-6:
                 return fail(nontriv, cls, "record %d: bunch %d profile integrates to %.8g, stored population %.8g" % (ri, b, integ, pop[ri, b]), "moments:population", met)
